@@ -349,6 +349,12 @@ def run(ctx, res):
     n = check_literals(res, facts)
     check_radix(res, facts)
     check_constpath(res, facts)
+    # derive-time arithmetic: the constants emitted by #[derive(MontConfig)] for every modulus of the shapes grid
+    # (1..13 limbs, two-adicity up to 130, special-form primes) against their recomputation from the modulus
+    from rules import c16
+    cx = c16.Ctx(res, configs.Registry(facts, units=("shapes",)))
+    cx.facts = facts
+    c16.check_prime_fields(cx)
     return {
         "level": "other",
         "explanation": "A grid of %d literal constants (MontFp! and BigInt!, all radices and prefix cases, both signs, leading zeros, boundary and random values below and above p, 14 modulus shapes from 1 to 12 limbs including no-spare-bit moduli near 2^(64N) and near 0.7*2^(64N)) is evaluated by rustc's const evaluator on the real macro expansion and const fns; the evaluated limbs are compared with an independent Python reading of the literal text.  Path enumeration over the MIR of the literal parser in ark-ff-macros decides the prefix/radix/sign table; truth-table and expression rules decide the const conversion path (new, from_sign_and_limbs, const_neg, final reduction).  All strings x all moduli is infinite and NOT decided; num-bigint's digit parser is trusted; derive-time arithmetic is decided under C16." % n,
